@@ -70,6 +70,7 @@ func runC19(p *Prog, r *Report) {
 	r.Rule("D6-enable", "EnableRequiredExtractors: error only if both registries fail; append only on success")
 	r.Rule("D5-decision-table", "ValidateRequirements accepts exactly under the audited combination of its atomic tests")
 	c19DecisionTable(p, r)
+	c19NameLookups(p, r)
 
 	regs := []*registry{
 		{kind: "filesystem", pkgRel: "extractor/filesystem/list", namesVar: "extractorNames"},
@@ -570,6 +571,21 @@ func checkFilters(p *Prog, r *Report, rg *registry) {
 			okRet = false
 		}
 	}
+	// the result is built in a fresh slice: filtering in place (result := xs[:0]) rewrites the
+	// caller's list, so a second filtering of the same list under other capabilities starts from a
+	// corrupted input
+	aliased := false
+	forEachInstr(fb, func(_ *ssa.BasicBlock, _ int, in ssa.Instruction) {
+		if sl, ok := in.(*ssa.Slice); ok && sl.X == ssa.Value(fb.Params[0]) {
+			for _, ref := range *sl.Referrers() {
+				switch ref.(type) {
+				case *ssa.Phi, *ssa.Call:
+					aliased = true
+				}
+			}
+		}
+	})
+	r.Check(!aliased, "D3-filter", site+":fresh-result", p.Pos(fb.Pos()), "the result does not share storage with the list being filtered", "the filter builds its result in the backing array of the list it was given (xs[:0]): the caller's list is overwritten, and filtering the same list again under other capabilities drops satisfied plugins and duplicates others")
 	r.Check(okRet, "D3-filter", site+":no-early-return", p.Pos(fb.Pos()), "every return comes after the loop over the elements", "the filter can return without examining the elements (an early return for some capability value): valid plugins are dropped wholesale")
 	// FromCapabilities: returns FilterByCapabilities(all, capabs), all built from ranging over All and calling every initer.
 	fc := p.Func(rg.pkgRel, "FromCapabilities")
@@ -930,3 +946,47 @@ func c19DecisionTable(p *Prog, r *Report) {
 }
 
 func typeShortFull(t types.Type) string { return types.TypeString(t, nil) }
+
+// c19NameLookups: every resolution of a plugin name (ExtractorFromName, ExtractorsFromNames,
+// DetectorsFromNames, …) looks the name up in the package's names table — the table D2 proves to be
+// concat(All, groups) — and in no narrower map (such as Default).
+func c19NameLookups(p *Prog, r *Report) {
+	n := 0
+	for _, pkgRel := range []string{"extractor/filesystem/list", "extractor/standalone/list", "detector/list"} {
+		pk := p.Pkg(pkgRel)
+		if pk == nil {
+			continue
+		}
+		for _, name := range []string{"ExtractorFromName", "ExtractorsFromNames", "DetectorFromName", "DetectorsFromNames", "ExtractorExists", "DetectorExists"} {
+			fn := p.Func(pkgRel, name)
+			if fn == nil {
+				continue
+			}
+			forEachInstr(fn, func(_ *ssa.BasicBlock, _ int, in ssa.Instruction) {
+				lk, ok := in.(*ssa.Lookup)
+				if !ok {
+					return
+				}
+				mt, isMap := lk.X.Type().Underlying().(*types.Map)
+				if !isMap {
+					return
+				}
+				// only registry-shaped maps: name -> list of constructors
+				if sl, ok := mt.Elem().Underlying().(*types.Slice); !ok {
+					return
+				} else if _, isFn := sl.Elem().Underlying().(*types.Signature); !isFn {
+					return
+				}
+				n++
+				okT := false
+				if u, ok := lk.X.(*ssa.UnOp); ok {
+					if g, ok := u.X.(*ssa.Global); ok && strings.HasSuffix(g.Name(), "Names") {
+						okT = true
+					}
+				}
+				r.Check(okT, "D1-name", pkgRel+"."+name+":table", p.Pos(lk.Pos()), "looks the name up in the names table", "a plugin name is resolved in a map other than the package's names table (e.g. only the default set): registered plugins outside that map do not resolve by their own name, so a detector requiring one of them cannot be auto-enabled")
+			})
+		}
+	}
+	r.Instances("D1-name", "name lookups in the list packages", n, 5)
+}
